@@ -1,10 +1,12 @@
 import Infretis.Lemmas.RepexC07Chain
 import Infretis.Lemmas.RepexC07AsIs
+import Infretis.Lemmas.RepexC07Eng
 /-!
 # C07 — every job gets its own random stream
 
 Property theorems only.  Helper lemmas:
-`Infretis/Lemmas/RepexC07{Frame,Issue,Distinct,Count,Reissue,Chain,AsIs}.lean`.
+`Infretis/Lemmas/RepexC07{Frame,Issue,Distinct,Count,Reissue,Chain,AsIs,Eng}.lean`;
+the engine set-up loop of `select_shoot` is modelled in `Infretis/Model/EngSetup.lean`.
 Model: `Infretis/Model/Repex.lean` (read-only here; tied to the real `REPEX_state` by
 `harness/repex_tie.py` / `harness/props/c07.py`).  The model follows /repo commit 147c104: every
 `locked` record carries the ordinal of the job's child stream (`lockedOrd`), a job recorded in the
@@ -495,6 +497,54 @@ theorem scheduler_draws_after_restart (s s' : St) (o : PickOutcome) (d : Nat) (p
     rcases h2 with h2 | h2
     · exact Or.inr h2
     · exact Or.inl ⟨h1, h2⟩
+
+/-! ## 5b. The engine objects of a job hold that job's engine streams
+
+`select_shoot` hands every engine object of every picked ensemble the ensemble's `rgen-eng`
+(`assignEngineStreams`, Model/EngSetup.lean; an engine object = (engine type, instance) of the
+worker process, its `rgen` attribute lives in the table `EngTbl`).  Whatever an engine object held
+before — the stale generator of an earlier job, or nothing — every in-process draw of job `k` is
+then made on a stream `(seed, [k, j, 0])` of that job. -/
+
+/-- **`engines_hold_job_streams`.**  For every job of every chain (fresh or re-issued; one ensemble or
+    a zero swap; `[0-]` and `[0+]` on one shared engine object or on different ones; one or several
+    engine types per ensemble; any instance indices) and ANY prior contents of the process's engine
+    table: after the set-up every engine object the job uses holds the engine stream
+    `(seed, [ord, j, 0])` of an entry `j` of THAT job which lists the object. -/
+theorem engines_hold_job_streams (seed : Nat) (y : Sys) (log : List Entry) (h : ChainReach seed y log)
+    (e : Entry) (he : e ∈ log) (tbl : EngTbl) (obj : EngObj)
+    (hobj : ∃ p ∈ e.job.picked, obj ∈ p.engIdx) :
+    ∃ (j : Nat) (q : Picked), e.job.picked[j]? = some q ∧ obj ∈ q.engIdx ∧
+      engRgen (assignEngineStreams tbl e.job.picked) obj = some { entropy := seed, key := [e.ord, j, 0] } :=
+  assign_job_ordinal (h.inv.tagged e he) tbl obj hobj
+
+/-- **`engine_of_own_ensemble`.**  An engine object listed by a picked ensemble holds exactly that
+    ensemble's engine stream unless a LATER picked ensemble of the same job shares the object — so
+    in a zero swap whose ensembles run on different engine objects each object gets its own
+    ensemble's stream; an object the job does not use keeps what it had. -/
+theorem engine_of_own_ensemble (l1 l2 : List Picked) (p : Picked) (tbl : EngTbl) (obj : EngObj) :
+    (obj ∈ p.engIdx → (∀ q ∈ l2, obj ∉ q.engIdx) →
+      engRgen (assignEngineStreams tbl (l1 ++ p :: l2)) obj = some p.rgenEng) ∧
+    ((∀ q ∈ l1 ++ p :: l2, obj ∉ q.engIdx) →
+      engRgen (assignEngineStreams tbl (l1 ++ p :: l2)) obj = engRgen tbl obj) :=
+  ⟨fun he hl => assign_last l1 l2 p tbl obj he hl, fun hn => assign_untouched _ tbl obj hn⟩
+
+/-- a system in which `[0-]` has its own engine type (type 1, two instances), the other ensembles
+    type 0: the zero swap of worker 0 drives two different engine objects -/
+def ex2Sys : Sys :=
+  { s := okOr exBlank (loadPaths (blank 4 2 10 0 3 7 [[-1, -1], [-1, -1]] [[1], [0], [0]] false []) exPaths),
+    jobs := [] }
+
+def ex2Job : List Picked :=
+  ((ghost ex2Sys [.start { t := 0, e := 0, coin := true, partner := 1 }]).map (·.job.picked)).flatten
+
+example : ex2Job.map (fun p => (p.ens, p.engIdx, p.rgenEng)) =
+      [(-1, [(1, 0)], ⟨7, [0, 0, 0]⟩), (0, [(0, 0)], ⟨7, [0, 1, 0]⟩)]
+    -- both engine objects carry stale generators of some earlier job 99; a third object is not used
+    ∧ (let tbl := assignEngineStreams [((1, 0), ⟨7, [99, 0, 0]⟩), ((0, 0), ⟨7, [99, 0, 0]⟩), ((0, 1), ⟨7, [98, 0, 0]⟩)] ex2Job
+       (engRgen tbl (1, 0), engRgen tbl (0, 0), engRgen tbl (0, 1)))
+      = (some ⟨7, [0, 0, 0]⟩, some ⟨7, [0, 1, 0]⟩, some ⟨7, [98, 0, 0]⟩) := by
+  refine ⟨by decide +kernel, by decide +kernel⟩
 
 /-! ## 6. Historical record: the restart path before the repairs
 
